@@ -1,3 +1,4 @@
+import math
 import numpy as np
 import uuid
 
@@ -79,7 +80,7 @@ class List(Expression):
             return List(children, begin_pos, end_pos)
 
     def __init__(self, children, begin_pos=None, end_pos=None):
-        Expression.__init__(self, np.prod([c.value for c in children]).astype("int32"), begin_pos=begin_pos, end_pos=end_pos)
+        Expression.__init__(self, math.prod(c.value for c in children), begin_pos=begin_pos, end_pos=end_pos)
         self.children = children
         assert len(children) != 1
         for c in children:
@@ -162,7 +163,7 @@ class ConcatenatedAxis(Expression):
     def __init__(self, children, begin_pos=None, end_pos=None):
         if len(children) == 0:
             raise ValueError("ConcatenatedAxis must have at least one child")
-        Expression.__init__(self, np.sum([c.value for c in children]).astype("int32"), begin_pos=begin_pos, end_pos=end_pos)
+        Expression.__init__(self, sum(c.value for c in children), begin_pos=begin_pos, end_pos=end_pos)
         self.children = children
         for c in children:
             if len(c) != 1:
